@@ -281,4 +281,36 @@ OutMsgs(T, tp) ==
   ELSE LET lv == HmLeaves(T, tp.outRoot, 15, <<>>) IN
        IF ~lv.ok \/ \E x \in lv.s : Len(T[x[2]].r) # 1 THEN [ok |-> FALSE, s |-> {}]
        ELSE [ok |-> TRUE, s |-> {<<BitsNat(x[1]), T[x[2]].r[1]>> : x \in lv.s}]
+
+\* ------------------------------------------------------------------ encoding
+\* The same layouts in the other direction: the cell tree of a message from a description of its fields.  MsgHash_Gen uses
+\* it to hand the implementation source cells that were laid out here, not by the implementation's own encoder.
+\* A tree node is [b |-> bits, c |-> <<child nodes>>]; addresses are the records AddrAt returns.
+EncAddr(a) == CASE a.kind = "none"   -> <<0, 0>>
+                [] a.kind = "extern" -> <<0, 1>> \o BitsM!UBits(ToString(Len(a.ext)), 9) \o a.ext
+                [] OTHER             -> DestBits(a, TRUE)
+\* val: the amount as whole bytes, most significant first, no leading zero byte (<<>> = 0)
+EncGrams(val) == BitsM!UBits(ToString(Len(val) \div 8), 4) \o val
+\* D: kind, src, dest, fee (import_fee / fwd_fee) and, where the constructor has them, flags (ihr_disabled bounce bounced),
+\*    value, ihr (Grams), lt (64 bits), at (32 bits);  init / body placement with si / bd = the state-init / body nodes
+EncInfo(D) ==
+  CASE D.kind = "int"    -> <<0>> \o D.flags \o EncAddr(D.src) \o EncAddr(D.dest) \o EncGrams(D.value) \o <<0>>
+                                 \o EncGrams(D.ihr) \o EncGrams(D.fee) \o D.lt \o D.at
+    [] D.kind = "ext_in" -> <<1, 0>> \o EncAddr(D.src) \o EncAddr(D.dest) \o EncGrams(D.fee)
+    [] OTHER             -> <<1, 1>> \o EncAddr(D.src) \o EncAddr(D.dest) \o D.lt \o D.at
+EncMsg(D) ==
+  LET ib == CASE D.init = "none" -> <<0>> [] D.init = "inline" -> <<1, 0>> \o D.si.b [] OTHER -> <<1, 1>>
+      ic == CASE D.init = "none" -> <<>>  [] D.init = "inline" -> D.si.c              [] OTHER -> <<D.si>>
+      bb == IF D.body = "inline" THEN <<0>> \o D.bd.b ELSE <<1>>
+      bc == IF D.body = "inline" THEN D.bd.c ELSE <<D.bd>>
+  IN [b |-> EncInfo(D) \o ib \o bb, c |-> ic \o bc]
+\* a tree as a cell table (cell 1 = the root, children after parents)
+RECURSIVE Flat(_)
+Flat(n) ==
+  LET subs == [i \in 1..Len(n.c) |-> Flat(n.c[i])]
+      off  == FoldLeft(LAMBDA acc, t : Append(acc, acc[Len(acc)] + Len(t)), <<1>>, subs)      \* off[i]: cells before subs[i]
+  IN FoldLeft(LAMBDA acc, i : acc \o ShiftRefs(subs[i], off[i]),
+              <<[b |-> n.b, x |-> Ordinary, m |-> 0, r |-> [i \in 1..Len(subs) |-> off[i] + 1]]>>,
+              [i \in 1..Len(subs) |-> i])
+TableJson(T) == [i \in 1..Len(T) |-> [b |-> BitsToStr(T[i].b), x |-> T[i].x, r |-> [j \in 1..Len(T[i].r) |-> T[i].r[j] - 1]]]
 =============================================================================
